@@ -12,7 +12,7 @@ import ast
 
 from .. import lin, paths, storewalk, tables
 from ..model import AnalysisError, Project, self_attr, walk_no_nested
-from ..report import Result
+from ..report import Result, ctx_of
 from ..tables import RP, RG, QP, QG, TRIGGERS, MUT
 from .common import events_atoms, site, src, sum_lin, status_str
 
@@ -47,6 +47,7 @@ def run(p: Project, tier: str) -> Result:
                      'head-of-line blocking among filtered requests']
     ws = storewalk.walks(p, assume_inv=('I1',))
     for w in ws:
+        r.ctx = ctx_of(w)
         r.paths += w.npaths
         max_g = grants_per_trigger(w)
         r.stats.setdefault('grants_per_trigger_call', {})[w.store.label] = max_g
